@@ -1,21 +1,31 @@
 #!/bin/bash
-# seedtest.sh <seeded-dir> [property ...] : apply seeded/<id>/patch.diff to /repo's working tree, run the quick
-# check(s) of the targeted property (default: meta.json's property), report whether a VIOLATION was raised,
-# and restore /repo. Never commits anything in /repo.
-D=$1; shift
+# seedtest.sh <seeded-dir> [property ...] : apply <dir>/patch.diff to a scratch worktree of /repo's HEAD
+# (outside /repo and /verif), run the quick check(s) of the targeted property there (VERIF_SRC), report
+# whether a VIOLATION was raised, and remove the worktree. /repo itself is never touched.
+# (SEED_IN_REPO=1 applies the patch to /repo's working tree instead and restores it afterwards.)
+D=$(cd "$1" && pwd); shift
 [ -f "$D/patch.diff" ] || { echo "no patch in $D"; exit 2; }
 props="$@"
-[ -n "$props" ] || props=$(python3 -c "import json,sys; print(json.load(open('$D/meta.json'))['property'])")
-cd /repo || exit 2
-git diff --quiet || { echo "/repo working tree is not clean"; exit 2; }
-git apply "$D/patch.diff" || { echo "patch does not apply"; exit 2; }
-trap 'git -C /repo checkout -- . ' EXIT
+[ -n "$props" ] || props=$(python3 -c "import json; print(json.load(open('$D/meta.json'))['property'].split()[0].strip(',;'))")
+V=$(cd "$(dirname "$0")/.." && pwd)
+if [ "${SEED_IN_REPO:-0}" = 1 ]; then
+  SRC=/repo
+  git -C /repo diff --quiet || { echo "/repo working tree is not clean"; exit 2; }
+  git -C /repo apply "$D/patch.diff" || { echo "patch does not apply"; exit 2; }
+  trap 'git -C /repo checkout -- .' EXIT
+else
+  SRC=/tmp/seed_wt_$$
+  git -C /repo worktree add -q --detach $SRC HEAD || exit 2
+  trap 'git -C /repo worktree remove --force '$SRC EXIT
+  git -C $SRC apply "$D/patch.diff" || { echo "patch does not apply"; exit 2; }
+fi
 for p in $props; do
-  cp /verif/evidence/$p.json /tmp/seedtest_evidence_$p.json 2>/dev/null   # evidence of a mutated tree is not kept
-  out=$(cd /verif && VERIF_BUILD=/verif/build/seed bin/vcheck $p --tier ${TIER:-quick} 2>&1)
+  cp $V/evidence/$p.json /tmp/seedtest_evidence_$p.$$.json 2>/dev/null   # evidence of a mutated tree is not kept
+  out=$(cd $V && VERIF_SRC=$SRC VERIF_BUILD=$V/build/seed_$$ bin/vcheck $p --tier ${TIER:-quick} 2>&1)
   rc=$?
-  cp /tmp/seedtest_evidence_$p.json /verif/evidence/$p.json 2>/dev/null
+  cp /tmp/seedtest_evidence_$p.$$.json $V/evidence/$p.json 2>/dev/null; rm -f /tmp/seedtest_evidence_$p.$$.json
   nv=$(echo "$out" | grep -c "^VIOLATION property=$p")
   echo "== $(basename $D) vs $p: exit=$rc violations=$nv"
-  echo "$out" | grep "^\[rejected\]\|^  detail\|INFRA\|purity\|tsan" | head -8
+  echo "$out" | grep "^\[rejected\]\|INFRA\|purity\] .* [1-9][0-9]* differ\|tsan\] .* [1-9]" | head -6
 done
+rm -rf $V/build/seed_$$
